@@ -15,6 +15,10 @@ import KiraModel.Exec.SuiteStatic
 import KiraModel.Exec.SuiteMixer
 import KiraModel.Exec.SuiteFxA
 import KiraModel.Exec.SuiteFxB
+import KiraModel.Exec.SuiteChan
+import KiraModel.Exec.SuiteStorage
+import KiraModel.Exec.SuiteLife
+import KiraModel.Exec.SuiteDeliver
 
 open K.Exec K.Exec.Clock K.Exec.Wav K.Exec.FxA K.Exec.FxB K.Exec.Mix
 
@@ -47,6 +51,10 @@ def suiteOf (name : String) : Option Suite :=
   | "mixer" | "mixtrk" | "mixpart" => some { σ := MixState, init := {}, step := mixStep }
   | "fxa" => some { σ := FxAState, init := {}, step := fxaStep }
   | "fxb" => some { σ := FxbState, init := {}, step := fxbStep }
+  | "chan" => some { σ := ChanState, init := {}, step := withSeq chanStep }
+  | "storage" => some { σ := StoState, init := {}, step := withSeq storageStep }
+  | "life" => some { σ := LifeState, init := {}, step := withSeq lifeStep }
+  | "deliver" => some { σ := DeliverState, init := {}, step := withSeq deliverStep }
   | _ => none
 
 def tokens (line : String) : List String :=
